@@ -46,9 +46,12 @@ inline Q type_min(Scalar s)
     }
 }
 
+// v is the expected value; `alts` holds further admissible values (a nearest-neighbour lookup exactly
+// half-way between two lattice points may choose either: the property fixes no tie direction)
 struct Result {
     bool ok = false;
     Vec v;
+    std::vector<Vec> alts;
     static Result bad()
     {
         return Result();
@@ -59,6 +62,21 @@ struct Result {
         r.ok = true;
         r.v = std::move(v);
         return r;
+    }
+    bool admits(const Vec & got) const
+    {
+        if (got == v) return true;
+        for (const Vec & a : alts)
+            if (got == a) return true;
+        return false;
+    }
+    template <typename F>
+    bool map_all(F f)
+    {
+        if (!f(v)) return false;
+        for (Vec & a : alts)
+            if (!f(a)) return false;
+        return true;
     }
 };
 
@@ -403,8 +421,13 @@ struct CastNode : Node {
     {
         Result r = inner->at(c);
         if (!r.ok) return r;
-        for (Q & x : r.v)
-            if (!cast_scalar(x, target, x)) return Result::bad();
+        Scalar t = target;
+        if (!r.map_all([t](Vec & vv) {
+                for (Q & x : vv)
+                    if (!cast_scalar(x, t, x)) return false;
+                return true;
+            }))
+            return Result::bad();
         return r;
     }
     std::string describe() const override
@@ -446,19 +469,39 @@ struct NNNode : Node {
     Scalar index;
     Result at(const Vec & c) const override
     {
-        Vec n(c.size());
+        // per axis: the nearest lattice point, or both neighbours on an exact tie (first = round-half-even)
+        std::vector<std::vector<Q>> cand(c.size());
+        size_t combos = 1;
         for (size_t k = 0; k < c.size(); ++k) {
-            Q f = floorq(c[k]), r = c[k] - f, v;
+            Q f = floorq(c[k]), r = c[k] - f;
             if (r < (Q)0.5)
-                v = f;
+                cand[k] = {f};
             else if (r > (Q)0.5)
-                v = f + 1;
+                cand[k] = {f + 1};
             else
-                v = (fmodq(f, 2) == 0) ? f : f + 1;
-            if (v < type_min(index) || v > type_max(index)) return Result::bad();
-            n[k] = v;
+                cand[k] = (fmodq(f, 2) == 0) ? std::vector<Q>{f, f + 1} : std::vector<Q>{f + 1, f};
+            for (Q v : cand[k])
+                if (v < type_min(index) || v > type_max(index)) return Result::bad();
+            combos *= cand[k].size();
         }
-        return inner->at(n);
+        Result out;
+        for (size_t m = 0; m < combos; ++m) {
+            Vec n(c.size());
+            size_t q = m;
+            for (size_t k = 0; k < c.size(); ++k) {
+                n[k] = cand[k][q % cand[k].size()];
+                q /= cand[k].size();
+            }
+            Result r = inner->at(n);
+            if (!r.ok) return Result::bad();  // every admissible choice must be in-domain, else the lookup is skipped
+            if (m == 0)
+                out = r;
+            else {
+                out.alts.push_back(r.v);
+                for (Vec & a : r.alts) out.alts.push_back(a);
+            }
+        }
+        return out;
     }
     std::string describe() const override
     {
